@@ -397,6 +397,12 @@ func (x *Exec) doGo(st *State, g *ssa.Go) {
 	key := ghSpawn + "$" + name
 	st.ghost[key] = Add(st.ghostInt(key), One)
 	st.ghost[ghSpawn] = Add(st.ghostInt(ghSpawn), One)
+	// a go statement is an event of the activation's call clock: when("go f") orders it with calls
+	st.ghost[ghClock] = Add(st.ghostInt(ghClock), One)
+	st.ghost[ghWhen+"go "+name] = st.ghost[ghClock]
+	if _, seen := st.ghost[ghFirst+"go "+name]; !seen {
+		st.ghost[ghFirst+"go "+name] = st.ghost[ghClock]
+	}
 	// stability rule: a started goroutine may only rely on stable facts; its preconditions
 	// are checked against the current state with unstable ghost facts erased.
 	if x.full {
